@@ -146,6 +146,11 @@ def check(case):
                 labels.append("skipped-measure")
         if any(ks is not None for *_, ks in spec):
             labels.append("keysounds")
+        rowlen = {}
+        for p, (bn, bd), c, t, ks in spec:
+            rowlen[(p, bn, bd)] = rowlen.get((p, bn, bd), 0) + (len(str(ks)) + 2 if ks is not None else 0)
+        if any(v + cols > 64 for v in rowlen.values()):
+            labels.append("row-text>64")
         return Verdict(nontrivial=bool(labels), labels=sorted(set(labels)), evals=len(notes) + 3)
 
     if kind in ("grid", "corpus"):
@@ -218,6 +223,16 @@ def s_stream(draw):
                     b = F(4 * (m + 1)) + F(i, D * mult)
                     if b < 4 * (m + 2):
                         spec.append([p, [b.numerator, b.denominator], c, t, ks])
+    if players and draw(st.integers(0, 7)) == 0:
+        # a crowded row: most columns of one row carry a keysounded note (multi-digit indices), so the row's text is far
+        # longer than its column count - on the very first row of the text or somewhere later
+        p = players[0] if draw(st.booleans()) else draw(st.sampled_from(players))
+        beat = F(0) if draw(st.booleans()) else F(draw(st.integers(0, 47)), draw(st.sampled_from([1, 2, 3, 4])))
+        cols = max(cols, draw(st.sampled_from([8, 10, 16, 16])))
+        chord = draw(st.lists(st.integers(0, cols - 1), min_size=cols - 3, max_size=cols, unique=True))
+        spec = [n for n in spec if not (n[0] == p and F(n[1][0], n[1][1]) == beat and n[2] in chord)]
+        for c in chord:
+            spec.append([p, [beat.numerator, beat.denominator], c, draw(st.sampled_from(N.NOTE_CHARS)), draw(st.sampled_from([10, 99, 100, 255, 1000, 9999, 12345]))])
     spec.sort(key=lambda n: (n[0], F(n[1][0], n[1][1]), n[2]))
     return {"kind": "stream", "cols": cols, "notes": spec}
 
